@@ -126,8 +126,8 @@ func parseThis(graphBuilder *AuthorizationModelGraphBuilder, parentNode graph.No
 	}
 
 	for _, directlyRelatedDef := range directlyRelated {
-		if directlyRelatedDef.GetRelationOrWildcard() == nil {
-			// direct assignment to concrete type
+		if directlyRelatedDef.GetWildcard() == nil && directlyRelatedDef.GetRelation() == "" {
+			// direct assignment to concrete type (also when the relation is present but empty)
 			assignableType := directlyRelatedDef.GetType()
 			curNode = graphBuilder.getOrAddNode(assignableType, assignableType, SpecificType)
 		}
